@@ -298,7 +298,8 @@ def reader_acceptance(ctx, prog, rule):
         good_succ = (e.get("0") if d[1] == "Eq" else e["otherwise"])
         if a[0] == "call" and a[1].endswith("Seek::seek"):
             checks["zero-size"] = h.ok_reachable(start=[bad_succ]) is None
-        if a[0] == "binop" and a[1] == "Rem" and strip(a[2])[0] == "call" and strip_casts(a[3]) == ("param", 2):
+        rem = as_remainder(a)
+        if rem is not None and rem[0][0] == "call" and rem[0][1].endswith("Seek::seek") and rem[1] == ("param", 2):
             # `size % page != 0` -> error: here the *non-zero* branch must fail
             nz = (e.get("0") if d[1] == "Eq" else e["otherwise"])
             checks["multiple-of-page"] = h.ok_reachable(start=[nz]) is None
